@@ -160,6 +160,43 @@ def l1(part, r, n):
                                    signature='rt-datetime-fresh')
                 if d1.value != d2.value or bytes(after2) != b' r' or bytes(after) != b' r':
                     part.violation('monitor', f'date-time round trip {dtxt!r} -> {bytes(d1)!r} -> {d2.value}', dict(level='L1', date=dtxt.decode()), signature='rt-datetime')
+            # ---- the zone of a date-time vs Zone.fmt / Zone.parse (about which C18_zone_roundtrip / C18_zone_canonical are proved)
+            with guarded(part, 'C18 L1 zone', dict(level='L1')):
+                from datetime import datetime as _dt, timezone as _tz, timedelta as _td
+                from pymap.parsing.exceptions import InvalidContent
+                zm = r.choice([0, 1, -1, 59, -59, 60, -60, 330, -210, -570, 840, -720, 1439, -1439, r.randint(-1439, 1439), r.randint(-1439, 1439)])
+                zreal = bytes(DateTime(_dt(2020, 1, 1, 12, 0, 0, tzinfo=_tz(_td(minutes=zm)))))[-6:-1]
+                zmod = m.ask(f'zone fmt {zm}')
+                part.stat('l1-zone')
+                if nats(zreal) != zmod:
+                    part.violation('correspondence', f'the zone of an offset of {zm} minutes is written {zreal!r}, Zone.fmt gives {bytes(unnats(zmod))!r}', dict(level='L1', zone_minutes=zm), signature='l1-zone-fmt')
+                ztxt = r.choice([zreal, zreal, b'-0000', b'+2400', b'+0060', b'+1a00', b'+000', b'+00000', b'Z', b'+9959', b'-2359', b'+2359', b'-0059', bytes(r.choice(b'+-0123456789:Z ') for _ in range(5))])
+                try:
+                    off = DateTime.parse(b'"01-Jan-2020 12:00:00 ' + ztxt + b'" r', Params())[0].value.utcoffset()
+                    zimpl = str(int(off.total_seconds() // 60))
+                except (NotParseable, InvalidContent):
+                    zimpl = 'none'
+                zpm = m.ask('zone parse ' + nats(ztxt))
+                if zimpl != zpm:
+                    part.violation('correspondence', f'the zone {ztxt!r} is read as {zimpl} minutes, Zone.parse gives {zpm}', dict(level='L1', zone=ztxt.decode('latin1')), signature='l1-zone-parse')
+            # ---- the text of a sequence set vs SeqText.parse (about which C18_seqset_roundtrip is proved)
+            with guarded(part, 'C18 L1 seqtext', dict(level='L1')):
+                from pymap.parsing.specials.sequenceset import MaxValue
+                stxt = gen.seqset(r, r.randint(1, 30)).encode() if r.random() < 0.7 else bytes(r.choice(b'0123456789*:,, ') for _ in range(r.randint(0, 8)))
+                sbuf = r.choice([b'', b'', b' ', b'  ']) + stxt + r.choice([b'', b' x', b'\r\n', b')', b',', b':', b',x', b' 1', b'*'])
+
+                def show_idx(i_):
+                    return '*' if isinstance(i_, MaxValue) else str(i_)
+                try:
+                    sval, safter = SequenceSet.parse(sbuf, Params())
+                    simpl = ' '.join(show_idx(e_) if not isinstance(e_, tuple) else show_idx(e_[0]) + ':' + show_idx(e_[1]) for e_ in sval.sequences) + '|' + nats(bytes(safter))
+                except NotParseable:
+                    simpl = 'none'
+                smod = m.ask('seqtext ' + nats(sbuf))
+                part.stat('l1-seqtext')
+                part.case(key='seqtext:' + sbuf.hex(), nontrivial=b':' in sbuf or b',' in sbuf)
+                if simpl != smod:
+                    part.violation('correspondence', f'SequenceSet.parse({sbuf!r}) = {simpl}, SeqText.parse = {smod}', dict(level='L1', seqtext=list(sbuf)), signature='l1-seqtext')
             part.stat('l1-rounds')
     finally:
         m.close()
